@@ -53,6 +53,37 @@ def e2e_sessions(ctx, n, prop, oracle_names, session_kw):
     return out, fails
 
 
+def h2_extra(oracle_names, counts, crashes=True):
+    """HTTP/2 half of the end-to-end oracles: concurrent streams through the real stack, an independent h2 client."""
+    import random
+
+    from . import h2e2e as E2
+
+    orc = {"c01": E2.oracle_c01, "c02": E2.oracle_c02, "c05": E2.oracle_c05}
+
+    def extra(ctx):
+        fails, dist = [], {"h2_sessions": 0, "h2_streams": 0, "h2_crashing_plans": 0}
+        n = ctx.scale(*counts)
+        for i in range(n):
+            seed = ctx.seed * 1299709 + i
+            rng = random.Random(seed)
+            s = E2.Session2(rng, policy=rng.choice(["fifo", "random", "lifo"]), seed=seed, crashes=crashes)
+            s.run()
+            d = s.describe()
+            dist["h2_sessions"] += 1
+            dist["h2_streams"] += len(s.reqs)
+            dist["h2_crashing_plans"] += sum(1 for p in s.plans.values() if p.crash)
+            for name in oracle_names:
+                for what, sig in orc[name](s):
+                    fails.append({"case": {"seed": seed, "h2": d}, "what": what, "signature": sig})
+            errs = [(nm, e) for nm, e in s.sess.errors() if not nm.startswith("app")]
+            if errs:
+                fails.append({"case": {"seed": seed, "h2": d}, "what": f"task errors {errs}", "signature": "h2e2e:task-error"})
+        return {"failures": fails, "count": n, "dist": dist}
+
+    return extra
+
+
 def run_common(ctx, prop, oracle_names, n_model, n_stream, n_e2e, session_kw, rule, extra=None):
     mc, mm = model_sessions(ctx, ctx.scale(*n_model))
     sc, sm = stream_sessions(ctx, ctx.scale(*n_stream)) if n_stream else ([], [])
